@@ -37,7 +37,6 @@ ASSUMPTIONS = ["fewer than 65536 messages per script (MessageId is u16)", "times
 HDR = 64
 UMAX = (1 << 64) - 1
 SIZES = [64, 65, 1088, 65600]
-KNOWN = "zero_delay_same_instant_reorder"
 
 
 # ----------------------------------------------------------------------------- arithmetic of calculate_busy
@@ -319,17 +318,6 @@ def _analyse(script, out):
     return None, inversions, facts
 
 
-def _in_known_class(script, inversions, facts):
-    """latency 0, jitter 0, and every inverted pair is (zero-tx message dequeued at t, older message whose exit is stamped t)."""
-    p = facts["p"]
-    if p["lat"] != 0 or p["jit"] != 0 or not inversions:
-        return False
-    for a, b in inversions:
-        if facts["tx"](p["offers"][a][1]) != 0 or facts["arrive"][a] != facts["arrive"][b] or facts["fates"][a] != 3:
-            return False
-    return True
-
-
 def monitor(script, out):
     msg, inversions, facts = _analyse(script, out)
     if msg is not None:
@@ -338,22 +326,6 @@ def monitor(script, out):
         a, b = inversions[0]
         return ("zero jitter: message %d (offered after %d) is handed to the receiver before it (both at %d ns)" %
                 (a, b, facts["arrive"][a]))
-    return None
-
-
-def known_class(script, io, mo):
-    if io is None:
-        return None
-    msg, inversions, facts = _analyse(script, io)
-    if msg is None and inversions and _in_known_class(script, inversions, facts):
-        if mo is None or io == mo:
-            return KNOWN
-    return None
-
-
-def known_witness(cls):
-    if cls == KNOWN:
-        return build(1, 2 * 10 ** 12, 0, 0, 1, 0, [(0, 1088), (0, 64)])
     return None
 
 
